@@ -247,6 +247,10 @@ func (s *vfSim) runMonitors(mc vfMonCfg) *vfMonOut {
 			side := e.Side
 			sh := out.sh[side]
 			peer := out.sh[1-side]
+			if s.puppet[side] {
+				// packets written by the harness-driven peer are not judged
+				continue
+			}
 
 			// ---- C12 (iii): well-formedness and stability of every emitted packet
 			for _, m := range p.Malformed {
